@@ -2,6 +2,7 @@ package main
 
 import (
 	"fmt"
+	"go/types"
 
 	"golang.org/x/tools/go/ssa"
 )
@@ -74,6 +75,16 @@ func (x *Exec) bigFromTC(w []*Term) TupleV {
 }
 
 func registerMoreIntrinsics() {
+	intrinsics["context.WithValue"] = func(x *Exec, st *State, fr *Frame, fn *ssa.Function, a []Value) (Value, int) {
+		cp := x.prog.ImportedPackage("context")
+		tn := cp.Type("valueCtx")
+		p := st.alloc(&StructV{f: []Value{a[0], a[1], a[2]}})
+		return ret1(IfaceV{typ: types.NewPointer(tn.Type()), val: p})
+	}
+	redirects["context.WithCancel"] = "M_ctx_WithCancel"
+	redirects["context.WithTimeout"] = "M_ctx_WithTimeout"
+	redirects["context.WithDeadline"] = "M_ctx_WithDeadline"
+	redirects["context.WithCancelCause"] = "M_ctx_WithCancelCause"
 	registerSnapshotIntrinsics()
 	intrinsics["math/big.NewInt"] = func(x *Exec, st *State, fr *Frame, fn *ssa.Function, a []Value) (Value, int) {
 		v := a[0].(*Term)
